@@ -1072,7 +1072,8 @@ def replay(ctx, obj):
         pid = 11111
         for n, cr in enumerate(r["chain"]):
             root = os.path.join(base, f"life{n}")
-            job = {"root": root, "result": root + ".result.json", "pid": pid, "crash": cr}
+            job = {"root": root, "result": root + ".result.json", "pid": pid, "crash": cr,
+                   "completion": spec.get("completion", "fifo")}
             if tree is None:
                 job.update(kind="fresh", spec=spec)
             else:
@@ -1084,8 +1085,16 @@ def replay(ctx, obj):
             tree, pid = root, pid + 1111
         tr = read_restart(tree)
         (rc, res), = sim.runjobs([{"root": tree, "result": tree + ".restart.json", "kind": "restart",
-                                   "entry": "restart.toml", "pid": pid}])
+                                   "entry": "restart.toml", "pid": pid, "completion": spec.get("completion", "fifo")}])
         res = res or {}
+        for e in res.get("events", []):
+            if "inflight" in e and e.get("text"):
+                rec = parse_current(e["text"])
+                want = sorted((sorted(j["ens"]), sorted(j["paths"])) for j in e["inflight"])
+                got = sorted((sorted(x - 1 for x in l[0]), sorted(l[1])) for l in (rec or {}).get("locked", []))
+                if want != got:
+                    print(f"record of step {rec and rec['cstep']}: in flight {want}, recorded {got}")
+                    return 1
         print("restart.toml on the crashed tree:", tr if not isinstance(tr, dict) else {k: tr[k] for k in ("cstep", "active")})
         print("restart:", res.get("outcome"), res.get("phase"), res.get("error"))
         if res.get("outcome") != "starts" or res.get("phase") != "finished":
